@@ -243,6 +243,20 @@ impl Debug for NodeHandle {
     }
 }
 
+// Verification hook: raw fields of a node.
+#[cfg(btdht_verif)]
+impl Node {
+    #[allow(clippy::type_complexity)]
+    pub(crate) fn verif_fields(&self) -> (Option<Instant>, Option<Instant>, Option<Instant>, usize) {
+        (
+            self.last_request,
+            self.last_response,
+            self.last_local_request,
+            self.refresh_requests,
+        )
+    }
+}
+
 #[cfg(test)]
 mod tests {
     use crate::time::Instant;
